@@ -17,6 +17,7 @@ import RtrModel.PduConv
 import RtrModel.Spki
 import RtrModel.Proto
 import RtrProofs.CLinkIo
+import RtrProofs.CLinkFsm
 
 open Rtr Rtr.Gen Rtr.Proto Rtr.P
 
@@ -122,6 +123,58 @@ def step (line : String) : String :=
       reply (showOpt (fun x => toString x.toNat) (C.key_entry_cmp (mk a1 k1 p1 s1) (mk a2 k2 p2 s2)))
             (if SpkiTable.cmp (mr a1 k1 p1 s1) (mr a2 k2 p2 s2) then "0" else "1")
     | _, _, _, _, _, _, _, _ => "bad-op"
+  | "fsm_replay" :: iters :: rest =>
+    -- fsm_replay <max iterations> <socket: 13 numbers> ; <answer: rc aux + 13 numbers> ; ...
+    -- runs the TRANSLATED state machine (rtr_fsm_start.loop1.step, iterated) and the SPECIFICATION skeleton in the world made of
+    -- the answers (beyond them: rc -1 and a socket in state SHUTDOWN, so that the machine stops); prints the calls made with
+    -- their recorded arguments and the socket at the time of each call
+    let groups := (" ".intercalate rest).splitOn ";" |>.map (fun g => (g.splitOn " ").filter (· ≠ ""))
+    let toSock (l : List String) : Option C.S_rtr_socket := do
+      match l.mapM String.toInt? with
+      | some [r, lu, e, y, iv, st, sid, rq, sn, th, v, hp, ir] =>
+        pure { refresh_interval := BitVec.ofInt 32 r, last_update := BitVec.ofInt 64 lu, expire_interval := BitVec.ofInt 32 e,
+               retry_interval := BitVec.ofInt 32 y, iv_mode := BitVec.ofInt 32 iv, state := BitVec.ofInt 32 st,
+               session_id := BitVec.ofInt 32 sid, request_session_id := rq != 0, serial_number := BitVec.ofInt 32 sn,
+               thread_id := BitVec.ofInt 64 th, version := BitVec.ofInt 32 v, has_received_pdus := hp != 0, is_resetting := ir != 0 }
+      | _ => none
+    let showSock (s : C.S_rtr_socket) : String :=
+      s!"{s.refresh_interval.toNat} {s.last_update.toInt} {s.expire_interval.toNat} {s.retry_interval.toNat} {s.iv_mode.toInt} {s.state.toNat} {s.session_id.toNat} {if s.request_session_id then 1 else 0} {s.serial_number.toNat} {s.thread_id.toNat} {s.version.toNat} {if s.has_received_pdus then 1 else 0} {if s.is_resetting then 1 else 0}"
+    let showTrace (t : List (String × List (BitVec 64) × C.S_rtr_socket)) : String :=
+      "/".intercalate (t.map fun c => s!"{c.1} {" ".intercalate (c.2.1.map fun a => toString a.toInt)} | {showSock c.2.2}")
+    match iters.toNat?, groups with
+    | some iters, s0 :: answers =>
+      match toSock s0, answers.mapM (fun a => match a with
+                                       | rc :: aux :: st => (do let rc ← rc.toInt?; let aux ← aux.toInt?; let st ← toSock st
+                                                                pure ({ rc := BitVec.ofInt 64 rc, aux := BitVec.ofInt 64 aux, st := st } : C.ExtAns C.S_rtr_socket))
+                                       | _ => none) with
+      | some s0, some answers =>
+        let stop : C.ExtAns C.S_rtr_socket := { rc := BitVec.ofInt 64 (-1), aux := 0, st := { s0 with state := 9#32 } }
+        let w : C.XWorld C.S_rtr_socket := { ext := fun i => answers.getD i stop }
+        -- translated: iterate the step function
+        let rec goGen (fuel : Nat) (w : C.XWorld C.S_rtr_socket) (s : C.S_rtr_socket) : Option (C.XWorld C.S_rtr_socket × C.S_rtr_socket × Bool) :=
+          match fuel with
+          | 0 => some (w, s, false)
+          | fuel + 1 =>
+            if w.n ≥ answers.length then some (w, s, false) else
+            match C.rtr_fsm_start.loop1.step w s with
+            | none => none
+            | some (.done r) => some (r.2.2, r.2.1, true)
+            | some (.next (w', s')) => goGen fuel w' s'
+        let rec goSpec (fuel : Nat) (w : C.XWorld C.S_rtr_socket) (s : C.S_rtr_socket) : Option (C.XWorld C.S_rtr_socket × C.S_rtr_socket × Bool) :=
+          match fuel with
+          | 0 => some (w, s, false)
+          | fuel + 1 =>
+            if w.n ≥ answers.length then some (w, s, false) else
+            match CLink.Script.run CLink.fsmIterScript w s with
+            | none => none
+            | some o => match o.val with
+              | .exit => some (o.world w, o.sock, true)
+              | .again => goSpec fuel (o.world w) o.sock
+        let sh (r : Option (C.XWorld C.S_rtr_socket × C.S_rtr_socket × Bool)) : String :=
+          showOpt (fun x => s!"{if x.2.2 then "exit" else "run"} {showSock x.2.1} # {showTrace x.1.trace}") r
+        reply (sh (goGen iters w s0)) (sh (goSpec iters w s0))
+      | _, _ => "bad-op"
+    | _, _ => "bad-op"
   | [fn, len, timeout, script] =>
     -- send_all / recv_all <len> <timeout> <c0,c1:a1,c2:a2,...>: first clock reading, then (reading:answer) per round;
     -- beyond the script the clock stands still and the transport answers -1
